@@ -21,8 +21,10 @@ rm -rf $OUT/demo; mkdir -p $OUT/demo; (cd $DEMO && tar cf - --exclude target --e
 echo "== check against /repo with the patch"
 cd /verif
 PATCH=$SO/patch.diff; if [ -f $SO/patch_adapted.diff ]; then PATCH=$SO/patch_adapted.diff; cp $PATCH $OUT/patch_adapted.diff; fi
+cp evidence/$P.json /tmp/ev_$P.json 2>/dev/null
 git -C /repo apply $PATCH && { ./check $P > $OUT/check_with_patch.log 2>&1; echo "check rc=$?"; grep -E "VIOLATION|KNOWN|CHECK-ERROR" $OUT/check_with_patch.log | head; }
 git -C /repo checkout -- .
+cp /tmp/ev_$P.json evidence/$P.json 2>/dev/null; rm -f /tmp/ev_$P.json   # the evidence file of a run against a patched tree is not kept
 
 python3 - "$P" "$NAME" <<'PY'
 import json,sys,os,re
